@@ -1361,6 +1361,9 @@ func (pc *PartitionContext) handleForeignAllocation(allocationKey, applicationID
 	if node == nil {
 		return false, false, fmt.Errorf("failed to find node %s for allocation %s", nodeID, allocationKey)
 	}
+	if alloc.GetAllocatedResource().HasNegativeValue() {
+		return false, false, fmt.Errorf("foreign allocation %s has a negative resource %s", allocationKey, alloc.GetAllocatedResource())
+	}
 
 	exists := pc.getOrStoreForeignAlloc(alloc)
 	if !exists {
